@@ -21,7 +21,7 @@ use std::{
 pub static DEF: PropDef = PropDef {
     id: "C20",
     level: "exploration",
-    total: |t| t.pick(64, 1600),
+    total: |t| t.pick(512, 11200),
     run,
     rule: "record sets of 1..8 names (any printable ASCII other than the space delimiter, upper and lower case, 1..61 characters, incl. names that make the query longer than 80 bytes; one name in three is a near-duplicate of another record: same letters in another case, one character changed, a proper prefix, an extension, a trailing dot) with arbitrary addresses registered at the authoritative server; 1..10 clients each performing a sequence of lookups (first lookup of a name is cold, repeats must be cache hits), all clients concurrently, with 0..8 ms latency jitter so replies overtake each other; the server is told to serve exactly the number of cold queries. Every return value of DnsClient::get_host_by_name is compared with the record; every DNS frame seen by the H4 hook is decoded: a response must echo the identifier and name of the query sent from the port it goes to; between a successful lookup and the end of the following repeats of the same name by the same client the hook must see no new frame from that client. Non-trivial = >=2 clients, >=2 names and >=1 cache hit; distinct by scenario hash.",
     assumptions: &["only names that have a record are looked up (the statement is about those)", "lookups of one client are sequential; different clients run concurrently"],
